@@ -49,6 +49,25 @@ RecSetOf(r, i) == RangeS(RecSeq(r, i))
 SelfOnly(r, i) == At(r.nrec, i) = 1 /\ RecSeq(r, i) = <<i>>
 
 -----------------------------------------------------------------------------
+(* Well-formedness of an observation: every table has the grid's size and    *)
+(* every index is a node.  Checked first; the contracts below are only       *)
+(* evaluated on well-formed observations (an ill-formed one is a violation   *)
+(* of every property that reads the tables - and the in-bounds precondition  *)
+(* of the fixed-width tables, the proxy kept for C08).                       *)
+IsNodeSeq(x, sq) == \A k \in DOMAIN sq : sq[k] \in NodesOf(x)
+WellFormedGraph(x, r) ==
+  /\ Len(r.nrec) = x.n /\ Len(r.rec) = x.n /\ Len(r.dq) = x.n /\ Len(r.wq) = x.n /\ Len(r.wc) = x.n
+  /\ Len(r.ndon) = x.n /\ Len(r.don) = x.n /\ Len(r.dfs) = x.n /\ Len(r.bfs) = x.n /\ Len(r.lev) >= 1
+  /\ \A i \in NodesOf(x) :
+        /\ At(r.nrec, i) >= 1 /\ At(r.nrec, i) <= r.width /\ Len(At(r.rec, i)) = At(r.nrec, i)
+        /\ Len(At(r.dq, i)) = At(r.nrec, i) /\ Len(At(r.wq, i)) = At(r.nrec, i) /\ Len(At(r.wc, i)) = At(r.nrec, i)
+        /\ IsNodeSeq(x, At(r.rec, i))
+        /\ At(r.ndon, i) >= 0 /\ At(r.ndon, i) <= r.dwidth /\ Len(At(r.don, i)) = At(r.ndon, i)
+        /\ IsNodeSeq(x, At(r.don, i))
+  /\ IsNodeSeq(x, r.dfs) /\ IsNodeSeq(x, r.bfs)
+WellFormedElev(x, r) == Len(r.zin) = x.n /\ Len(r.zout) = x.n /\ Len(r.same) = x.n
+
+-----------------------------------------------------------------------------
 (* C01 - sink-resolved flow paths reach a base level.                        *)
 C01Terminals(x, r) == \A i \in NodesOf(x) : (Msk(x, i) \/ i \in x.bl) => SelfOnly(r, i)
 C01Descent(x, r) ==
@@ -279,6 +298,12 @@ BgPassWIn(cross, A, B) == SetMin({t[3] : t \in {t \in cross : t[1] = A /\ t[2] =
 BgExpectedLinksIn(x, b, cross) == {{t[1], t[2]} : t \in {t \in cross : BgInner(x, b, t[1]) \/ BgInner(x, b, t[2])}}
 BgReal(b) == {k \in DOMAIN b.edges : b.edges[k][3] # 0 - 1}
 BgVirtual(b) == {k \in DOMAIN b.edges : b.edges[k][3] = 0 - 1}
+BgWellFormed(x, b) ==
+  /\ Len(b.lab) = x.n /\ Len(b.z) = x.n /\ Len(b.outlets) = b.nb /\ IsNodeSeq(x, b.outlets)
+  /\ \A i \in NodesOf(x) : At(b.lab, i) \in (0 - 1)..(b.nb - 1)
+  /\ \A k \in DOMAIN b.edges : LET e == b.edges[k] IN
+        /\ Len(e) = 5 /\ e[1] \in 0..(b.nb - 1) /\ e[2] \in 0..(b.nb - 1)
+        /\ (e[3] = 0 - 1 /\ e[4] = 0 - 1) \/ (e[3] \in NodesOf(x) /\ e[4] \in NodesOf(x))
 BgLabelsOK(x, b) == /\ Len(b.outlets) = b.nb
                     /\ \A A \in BgBasins(b) : At(b.lab, At(b.outlets, A)) = A
 BgEdgesOK(x, b) ==
@@ -303,12 +328,14 @@ RECURSIVE BgReach(_, _, _)
 BgReach(b, K, S) == LET T == S \cup UNION {BgLink(b, k) : k \in {k \in K : BgLink(b, k) \cap S # {}}} IN
                     IF T = S THEN S ELSE BgReach(b, K, T)
 BgComponents(b, K) == {BgReach(b, K, {A}) : A \in BgBasins(b)}
-BgTreeIdx(b) == {At(b.tree, k) + 1 : k \in Idx0(b.tree)}
+BgTreeRaw(b) == {At(b.tree, k) + 1 : k \in Idx0(b.tree)}
+\* (indices outside the edge list are reported by BgTreeOK and ignored by the other predicates)
+BgTreeIdx(b) == BgTreeRaw(b) \cap DOMAIN b.edges
 BgW(b, k) == b.edges[k][5]
 BgTreeOK(x, b) ==
   LET T == BgTreeIdx(b)
       all == DOMAIN b.edges
-  IN /\ T \subseteq all /\ Cardinality(T) = Len(b.tree)
+  IN /\ BgTreeRaw(b) \subseteq all /\ Cardinality(BgTreeRaw(b)) = Len(b.tree)
      \* spanning forest of the edge graph: same components, as few edges as possible (so acyclic)
      /\ BgComponents(b, T) = BgComponents(b, all)
      /\ Cardinality(T) = b.nb - Cardinality(BgComponents(b, all))
